@@ -44,7 +44,7 @@ ASSUMPTIONS = ["argparse and file I/O are observed, not modelled"]
 XMLID = "{http://www.w3.org/XML/1998/namespace}id"
 
 
-def rand_argv(r):
+def rand_argv(r, force_uq=None):
     """Random CLI options, the equivalent Lean plan request and the expected API call."""
     argv = []
     fmt = r.choice(["diff", "diff", "xml", "old"])
@@ -78,6 +78,13 @@ def rand_argv(r):
         argv.append("--unique-attributes")
     elif m < 0.5:
         uq = r.choice(["id", "id,k", "a@id", "{urn:x}b@k,id", "n", XMLID + ",id", "b@k,a@id"])
+        argv += ["--unique-attributes", uq]
+    if force_uq is not None:
+        # a multi-valued list whose order decides the matching (the first listed attribute a node carries wins)
+        if "--unique-attributes" in argv:
+            i = argv.index("--unique-attributes")
+            del argv[i:i + (2 if uq is not None else 1)]
+        uq = force_uq
         argv += ["--unique-attributes", uq]
     ig = None
     if r.random() < 0.3:
@@ -141,6 +148,18 @@ def _chunk(seed, lo, hi, extra):
                 L, R, _ = c02.text_case(seed + 2, idx)
                 lx = xt.to_xml(L)
                 rx = lx if m < 0.45 else xt.to_xml(R)
+            force_uq = None
+            if r.random() < 0.12:
+                # two attributes that disagree about which node pairs with which: the order of --unique-attributes matters
+                force_uq = r.choice(["k,id", "n,id", "k,id,k", "a@k,id", "n,k"])
+                names = []
+                for e in force_uq.split(","):
+                    e = e.split("@")[-1]
+                    if e not in names:
+                        names.append(e)
+                x1, x2 = names[0], names[1]
+                lx = '<r><a %s="1" %s="p">same one</a><a %s="2" %s="q">same two</a><b/></r>' % (x1, x2, x1, x2)
+                rx = '<r><a %s="1" %s="q">same one</a><a %s="2" %s="p">same two</a><b/></r>' % (x1, x2, x1, x2)
             if r.random() < 0.3:
                 lx = '<?xml version="1.0" encoding="UTF-8"?>\n' + lx
             lf, rf = os.path.join(d, f"l{idx}.xml"), os.path.join(d, f"r{idx}.xml")
@@ -173,7 +192,7 @@ def _chunk(seed, lo, hi, extra):
                 st.failures.append({"sig": f"C15/input-path-raises/{real.exc_sig(e)}", "formatter": getattr(fcls, "__name__", None), "normalize": norm, "options": repr(opts), **desc})
             # ---------- (b) the command
             st.units["U10cli"] = st.units.get("U10cli", 0) + 1
-            argv, req, a = rand_argv(r)
+            argv, req, a = rand_argv(r, force_uq)
             calls = []
             orig = main.diff_files
 
